@@ -132,6 +132,36 @@ def curve_task(args):
     return out
 
 
+def pw_task(args):
+    """two-piece variant on two *collinear* straight pieces (angle 180 degrees): must equal the flat seminorm on the union"""
+    N, tier = args
+    import numpy as np
+    P = exact_package()
+    S = P.norms.Slobodeckij(1, N)
+    out = []
+    D = (N - 1) // 2
+    base = "C14/src.norms:Slobodeckij.seminorm_h_1_2_pw/N={}".format(N)
+    cases = [((Fraction(3, 5), Fraction(4, 5)), Fraction(1, 2), Fraction(2), Fraction(3), Fraction(15, 4)),
+             ((Fraction(0), Fraction(1)), Fraction(0), Fraction(1), Fraction(1), Fraction(5, 4))]
+    for (dx, dy), a1, b1, a2, b2 in (cases if tier == "thorough" else cases[:1]):
+        p0 = np.array([[Fraction(1)], [Fraction(-2)]], dtype=object)
+        d = np.array([[dx], [dy]], dtype=object)
+
+        def g1(x):
+            return p0 + (x - a1) * d
+
+        def g2(y):
+            return p0 + (b1 - a1) * d + (y - a2) * d
+        for p in range(D + 1):
+            def f(xh, g, p=p):
+                s_ = (xh - a1) if g is g1 else (b1 - a1) + (xh - a2)
+                return s_ ** p
+            v = Fraction(S.seminorm_h_1_2_pw(f, a1, b1, g1, a2, b2, g2))
+            w = Fraction(S.seminorm_h_1_2(lambda s_, p=p: s_ ** p, Fraction(0), (b1 - a1) + (b2 - a2)))
+            out.append(("{}/collinear-pieces-equal-flat-on-union/dir=({},{})/s^{}".format(base, dx, dy, p), "eq", v, w, None))
+    return out
+
+
 def _safe(fn_args):
     fn, args = fn_args
     try:
@@ -159,6 +189,7 @@ def run(tier, seed):
     orders14 = list(range(1, 24, 2))
     tasks = [(task, ("h12", N, tier)) for N in orders12] + [(task, ("h14", N, tier)) for N in orders14]
     tasks += [(curve_task, (N, tier)) for N in ((3, 7, 11) if tier == "quick" else orders12)]
+    tasks += [(pw_task, (N, tier)) for N in ((3, 7, 11, 21) if tier == "quick" else orders12)]
     chk.under_contract("src.norms:Slobodeckij.__init__", "src.norms:Slobodeckij.seminorm_h_1_2", "src.norms:Slobodeckij.seminorm_h_1_4")
     ctx = mp.get_context("fork")
     with ctx.Pool(min(16, os.cpu_count() or 4)) as pool:
@@ -204,7 +235,10 @@ def run(tier, seed):
         else:
             chk.add(Ob(name, UNDECIDED if st != "error" else ERROR, backend=be, seconds=dt, detail=dict(info=str(info)[:200])))
     chk.vacuity = dict(orders_h12=orders12, orders_h14=orders14, ground_obligations=len(queries))
+    chk.under_contract("src.norms:Slobodeckij.seminorm_h_1_2_pw")
     smt.close_pool()
+    from bounded import corner_ref
+    corner_ref.run(chk, tier, seed)
     return chk.finish()
 
 
